@@ -1277,7 +1277,7 @@ func (m *KV) Delete(key string) error {
 		return fmt.Errorf("invalid codec: %s", val.CodecID)
 	}
 
-	change, newver, deleted, updated, err := m.mergeValueForKey(key, val.value, false, 0, val.CodecID, true, time.Now())
+	change, newver, deleted, updated, err := m.mergeValueForKey(key, val.value, false, false, 0, val.CodecID, true, time.Now())
 	if err != nil {
 		level.Error(m.logger).Log("msg", "could not mark key for deletion due to error while trying to merge new value", "key", key, "err", err)
 		return err
@@ -1380,7 +1380,7 @@ func (m *KV) trySingleCas(key string, codec codec.Codec, f func(in interface{}) 
 	// succeed if version hasn't changed, i.e. state hasn't changed since running 'f'.
 	// Supplied function may have kept a reference to the returned "incoming value".
 	// If KV store will keep this value as well, it needs to make a clone.
-	change, newver, deleted, updated, err := m.mergeValueForKey(key, incomingValue, true, ver, codec.CodecID(), false, time.Now())
+	change, newver, deleted, updated, err := m.mergeValueForKey(key, incomingValue, true, true, ver, codec.CodecID(), false, time.Now())
 	if err == errVersionMismatch {
 		return nil, 0, retry, false, time.Time{}, err
 	}
@@ -1802,14 +1802,14 @@ func (m *KV) mergeBytesValueForKey(key string, incomingData []byte, codec codec.
 	}
 
 	// No need to clone this "incomingValue", since we have just decoded it from bytes, and won't be using it.
-	return m.mergeValueForKey(key, incomingValue, false, 0, codec.CodecID(), deleted, updateTime)
+	return m.mergeValueForKey(key, incomingValue, false, false, 0, codec.CodecID(), deleted, updateTime)
 }
 
 // Merges incoming value with value we have in our store. Returns "a change" that can be sent to other
 // cluster members to update their state, and new version of the value.
 // If CAS version is specified, then merging will fail if state has changed already, and errVersionMismatch is reported.
 // If no modification occurred, new version is 0.
-func (m *KV) mergeValueForKey(key string, incomingValue Mergeable, incomingValueRequiresClone bool, casVersion uint, codecID string, deleted bool, updateTime time.Time) (change Mergeable, newVersion uint, newDeleted bool, newUpdated time.Time, err error) {
+func (m *KV) mergeValueForKey(key string, incomingValue Mergeable, incomingValueRequiresClone bool, cas bool, casVersion uint, codecID string, deleted bool, updateTime time.Time) (change Mergeable, newVersion uint, newDeleted bool, newUpdated time.Time, err error) {
 	m.storeMu.Lock()
 	defer m.storeMu.Unlock()
 
@@ -1823,11 +1823,12 @@ func (m *KV) mergeValueForKey(key string, incomingValue Mergeable, incomingValue
 		return nil, 0, false, time.Time{}, err
 	}
 
-	// if casVersion is 0, then there was no previous value, so we will just do normal merge, without localCAS flag set.
-	if casVersion > 0 && curr.Version != casVersion {
+	// A CAS only succeeds if the version hasn't changed since its function read the value. This includes version 0
+	// (no previous value): another update may have created the key in the meantime.
+	if cas && curr.Version != casVersion {
 		return nil, 0, false, time.Time{}, errVersionMismatch
 	}
-	result, change, err := computeNewValue(incomingValue, incomingValueRequiresClone, curr.value, casVersion > 0)
+	result, change, err := computeNewValue(incomingValue, incomingValueRequiresClone, curr.value, cas)
 	if err != nil {
 		return nil, 0, false, time.Time{}, err
 	}
